@@ -22,7 +22,7 @@ CACHE = os.path.join(VERIF, ".cache")
 
 
 def sh(cmd, **kw):
-    return subprocess.run(cmd, stdout=subprocess.PIPE, stderr=subprocess.PIPE, text=True, **kw)
+    return subprocess.run(cmd, stdout=subprocess.PIPE, stderr=subprocess.PIPE, text=True, errors="replace", **kw)
 
 
 def strip_comments(src):
@@ -232,7 +232,7 @@ def t2(workdir):
         objs.append(obj)
         if not os.path.exists(obj):
             procs.append((obj, subprocess.Popen(["g++", "-std=gnu++14", "-msse4", "-O0", "-g", "-I", os.path.join(REPO, "src"),
-                                                 "-c", sfile, "-o", obj + ".tmp%d" % os.getpid()], stdout=subprocess.PIPE, stderr=subprocess.PIPE, text=True)))
+                                                 "-c", sfile, "-o", obj + ".tmp%d" % os.getpid()], stdout=subprocess.PIPE, stderr=subprocess.PIPE, text=True, errors="replace")))
     # one more object: every header of the library in one translation unit with -fkeep-inline-functions, so that function-local
     # statics of inline (header-defined) member functions are in the inventory even when no library source calls the function
     allh = os.path.join(objdir, "allhdr_" + hh[:24] + ".o")
@@ -241,7 +241,7 @@ def t2(workdir):
         tu = os.path.join(objdir, "allhdr_%d.cpp" % os.getpid())
         open(tu, "w").write("".join('#include "%s"\n' % os.path.basename(h) for h in hdrs))
         procs.append((allh, subprocess.Popen(["g++", "-std=gnu++14", "-msse4", "-O0", "-g", "-fkeep-inline-functions", "-I", os.path.join(REPO, "src"),
-                                              "-c", tu, "-o", allh + ".tmp%d" % os.getpid()], stdout=subprocess.PIPE, stderr=subprocess.PIPE, text=True)))
+                                              "-c", tu, "-o", allh + ".tmp%d" % os.getpid()], stdout=subprocess.PIPE, stderr=subprocess.PIPE, text=True, errors="replace")))
     for obj, pr in procs:
         out, err = pr.communicate()
         if pr.returncode != 0:
